@@ -7,6 +7,7 @@ import (
 	"go/types"
 	"sort"
 	"strings"
+	"time"
 
 	"golang.org/x/tools/go/ssa"
 )
@@ -83,6 +84,10 @@ type Config struct {
 	ThreadMode  bool
 	MaxSwitches int
 	Seed        uint64
+	// StopAfterViolation: once a violation is recorded, explore at most this many further
+	// paths (the verdict is a violation anyway; a broken tree can explode the path space)
+	StopAfterViolation int
+	MaxWallS           int
 }
 
 type Exec struct {
@@ -131,12 +136,14 @@ type Exec struct {
 	TotalSteps   int64
 	assertLabels map[string]int
 
-	Records  map[string]string
-	fmtCache map[string]*Term
-	fnInfos  map[*ssa.Function]*fnInfo
-	actions  map[*ssa.Function]*fnAction
-	typeByNm map[string]types.Type
-	threads  *threadState
+	firstVioPath int
+	started      time.Time
+	Records      map[string]string
+	fmtCache     map[string]*Term
+	fnInfos      map[*ssa.Function]*fnInfo
+	actions      map[*ssa.Function]*fnAction
+	typeByNm     map[string]types.Type
+	threads      *threadState
 }
 
 func NewExec(prog *ssa.Program, sol *Solver, ts *TermStore, cfg Config) *Exec {
@@ -188,6 +195,7 @@ func shortFile(f string) string {
 
 // RunHarness explores all paths of fn.
 func (e *Exec) RunHarness(fn *ssa.Function) {
+	e.started = time.Now()
 	e.harness = fn.Name()
 	e.trail = nil
 	e.sol.PopTo(0)
@@ -209,6 +217,20 @@ func (e *Exec) RunHarness(fn *ssa.Function) {
 		e.sol.PopTo(d.level)
 		if e.cfg.MaxPaths > 0 && e.Paths >= e.cfg.MaxPaths {
 			e.PathsByKind["path-budget"]++
+			e.Unknowns++
+			break
+		}
+		if e.cfg.StopAfterViolation > 0 && len(e.Violations) > 0 {
+			if e.firstVioPath == 0 {
+				e.firstVioPath = e.Paths
+			}
+			if e.Paths-e.firstVioPath >= e.cfg.StopAfterViolation {
+				e.PathsByKind["stopped-after-violation"]++
+				break
+			}
+		}
+		if e.cfg.MaxWallS > 0 && time.Since(e.started) > time.Duration(e.cfg.MaxWallS)*time.Second {
+			e.PathsByKind["time-budget"]++
 			e.Unknowns++
 			break
 		}
@@ -453,13 +475,18 @@ func parseOneValue(txt string) uint64 {
 }
 
 // check is an assertion: c must hold on every value of the current path.
-func (e *Exec) check(c *Term, label string) {
+func (e *Exec) check(c *Term, label string) { e.check2(c, label, true) }
+
+// check2: assumeAfter says whether a violated check restricts the rest of the path to the
+// values on which it holds (implicit panics: yes, the program would not continue; harness
+// assertions: no, so that later assertions are judged independently of earlier ones).
+func (e *Exec) check2(c *Term, label string, assumeAfter bool) {
 	e.checkSeq++
 	aav := fmt.Sprintf("assume-after-violation:%d", e.checkSeq)
 	if !e.fresh {
 		// replayed prefix: already checked on an earlier run. An assumption was only
 		// recorded if the check failed then (the next trail entry says so).
-		if e.pos < len(e.trail) && e.trail[e.pos].what == aav && !c.IsFalse() {
+		if assumeAfter && e.pos < len(e.trail) && e.trail[e.pos].what == aav && !c.IsFalse() {
 			e.choose(aav, nil, nil)
 		}
 		return
@@ -499,6 +526,9 @@ func (e *Exec) check(c *Term, label string) {
 		return
 	case Unknown:
 		e.Unknowns++
+	}
+	if !assumeAfter {
+		return
 	}
 	if c.IsFalse() {
 		e.abort("infeasible", "assume false")
